@@ -143,6 +143,14 @@ func regrowSites(p *Prog, inScope func(*ssa.Function) bool) []regrowSite {
 					continue
 				}
 				f, root, par := bufVarOf(sl.X)
+				grown := false
+				if gc, ok := sl.X.(*ssa.Call); ok && f == nil && par == nil {
+					// slices.Grow(x, n)[:m] — the same regrowth, the capacity test is in Grow
+					if isSlicesGrow(gc) {
+						f, root, par = bufVarOf(gc.Call.Args[0])
+						grown = true
+					}
+				}
 				if f == nil && par == nil {
 					continue
 				}
@@ -166,7 +174,7 @@ func regrowSites(p *Prog, inScope func(*ssa.Function) bool) []regrowSite {
 						}
 					}
 				}
-				if !guarded {
+				if !guarded && !grown {
 					continue
 				}
 				site := regrowSite{Fn: fn, Slice: sl, Field: f, Param: par}
@@ -202,8 +210,12 @@ func regrowSites(p *Prog, inScope func(*ssa.Function) bool) []regrowSite {
 					return true
 				}
 				for _, z := range zs {
+					operand := z.Operand
+					if sub, ok := operand.(*ssa.Slice); ok && sub.X == ssa.Value(sl) {
+						operand = sl // the regrown extent only: x[old:new]
+					}
 					switch {
-					case z.Operand == ssa.Value(sl):
+					case operand == ssa.Value(sl):
 						// the regrown value itself, before or after it is published
 					case publish != ssa.Instruction(sl) && same(z.Operand) && afterInstr(publish, z.Operand) && afterInstr(publish, z.At):
 						// the field read again after the regrown value was stored in it
@@ -292,13 +304,45 @@ func afterInstr(a ssa.Instruction, bv any) bool {
 	return a.Block().Dominates(b.Block())
 }
 
-// orAccumulatesInto: fn stores `v[i] | …` back into v[i] for a v derived from
-// parameter par.
-func orAccumulatesInto(fn *ssa.Function, par *ssa.Parameter) bool {
+// accumulatesInto: fn stores `v[i] | …` or `v[i] + …` back into v[i] for a v
+// that is the regrown slice or derived from parameter par (through slicing,
+// phis and slices.Grow).
+func accumulatesInto(fn *ssa.Function, par *ssa.Parameter, regrown *ssa.Slice) bool {
+	var reaches func(v ssa.Value, seen map[ssa.Value]bool) bool
+	reaches = func(v ssa.Value, seen map[ssa.Value]bool) bool {
+		if v == nil || seen[v] {
+			return false
+		}
+		seen[v] = true
+		if v == ssa.Value(par) || v == ssa.Value(regrown) {
+			return true
+		}
+		switch x := v.(type) {
+		case *ssa.Slice:
+			return reaches(x.X, seen)
+		case *ssa.Phi:
+			for _, e := range x.Edges {
+				if reaches(e, seen) {
+					return true
+				}
+			}
+		case *ssa.Call:
+			if isSlicesGrow(x) {
+				return reaches(x.Call.Args[0], seen)
+			}
+		case *ssa.UnOp:
+			if a, ok := x.X.(*ssa.Alloc); ok && x.Op == token.MUL {
+				if sp := spilledParam(a); sp != nil {
+					return sp == par
+				}
+			}
+		}
+		return false
+	}
 	found := false
 	allInstrs(fn, false, func(_ *ssa.Function, ins ssa.Instruction) {
 		st, ok := ins.(*ssa.Store)
-		if !ok {
+		if !ok || found {
 			return
 		}
 		ia, ok := st.Addr.(*ssa.IndexAddr)
@@ -306,24 +350,19 @@ func orAccumulatesInto(fn *ssa.Function, par *ssa.Parameter) bool {
 			return
 		}
 		bo, ok := st.Val.(*ssa.BinOp)
-		if !ok || bo.Op != token.OR {
+		if !ok || (bo.Op != token.OR && bo.Op != token.ADD) {
 			return
 		}
 		reads := false
 		for _, side := range []ssa.Value{bo.X, bo.Y} {
 			if ld, ok := side.(*ssa.UnOp); ok && ld.Op == token.MUL {
-				if ia2, ok := ld.X.(*ssa.IndexAddr); ok && ia2.X == ia.X {
+				if ia2, ok := ld.X.(*ssa.IndexAddr); ok && (ia2 == ia || (ia2.X == ia.X && ia2.Index == ia.Index)) {
 					reads = true
 				}
 			}
 		}
-		if !reads {
-			return
-		}
-		for _, o := range Origins(ia.X, OriginOpts{}) {
-			if o.Kind == OrgParam && o.Val == ssa.Value(par) {
-				found = true
-			}
+		if reads && reaches(ia.X, map[ssa.Value]bool{}) {
+			found = true
 		}
 	})
 	return found
@@ -343,8 +382,8 @@ func runRegrowRule(c *Ctx, rule string, fields map[*types.Var]string, inScope fu
 		case s.Field != nil && fields[s.Field] != "":
 			why = fields[s.Field]
 			seenField[s.Field] = true
-		case s.Param != nil && orAccumulatesInto(s.Fn, s.Param):
-			why = "the function ORs bits into the elements of " + s.Param.Name()
+		case s.Param != nil && accumulatesInto(s.Fn, s.Param, s.Slice):
+			why = "the function adds to (or ORs bits into) the elements of " + s.Param.Name() + " instead of overwriting them"
 		default:
 			continue
 		}
@@ -364,4 +403,15 @@ func runRegrowRule(c *Ctx, rule string, fields map[*types.Var]string, inScope fu
 	}
 	sort.Strings(missing)
 	c.Anchor(rule, "a regrow site of "+strings.Join(missing, ", "), len(missing) == 0)
+}
+
+func isSlicesGrow(call *ssa.Call) bool {
+	g := call.Call.StaticCallee()
+	if g == nil || len(call.Call.Args) != 2 {
+		return false
+	}
+	if o := g.Origin(); o != nil {
+		g = o
+	}
+	return g.Name() == "Grow" && g.Pkg != nil && g.Pkg.Pkg.Path() == "slices"
 }
